@@ -92,10 +92,7 @@ func genBatch(t *rapid.T, r *kit.Rec) BatchCase {
 					b.Gap = gap
 					first = false
 				}
-				n := rapid.SampledFrom([]int{0, 1, 1, 1, 2, 2, 2, 3, 3, 3, 4, 4}).Draw(t, "npts")
-				for i := 0; i < n; i++ {
-					b.Pts = append(b.Pts, BP{Off: int64(rapid.SampledFrom([]int{0, 0, 1, 1, 1, 2}).Draw(t, "off")), V: int64(rapid.IntRange(0, 99).Draw(t, "v"))})
-				}
+				b.Pts = genBatchPoints(t)
 				bs = append(bs, b)
 			}
 		}
@@ -121,7 +118,7 @@ func genBatch(t *rapid.T, r *kit.Rec) BatchCase {
 	return c
 }
 
-
+// genBatchPoints: 0-4 points, time ordered, within the batch's period.
 func genBatchPoints(t *rapid.T) []BP {
 	var pts []BP
 	n := rapid.SampledFrom([]int{0, 1, 1, 1, 2, 2, 2, 3, 3, 3, 4, 4}).Draw(t, "npts")
@@ -196,15 +193,30 @@ func genBatchOn(t *rapid.T, r *kit.Rec) BatchCase {
 	lens := []int{len(c.Parents[0]), len(c.Parents[1])}
 	c.Schedules = genSchedules(t, lens)
 	if gp == 0 && excluding("lowmark") {
-		ev := c.events(c.batches())
-		for i, sch := range c.Schedules {
-			if lowMarkTriggerEv(ev, sch) >= 0 {
-				r.Exclude(exLowMark)
-				c.Schedules[i] = generalFirstInGroupEv(ev, sch)
-			}
+		n := repairLowMark(func() [][]onEv { return c.events(c.batches()) }, c.Schedules, c.appendClosingGeneral)
+		for i := 0; i < n; i++ {
+			r.Exclude(exLowMark)
 		}
 	}
 	return c
+}
+
+// appendClosingGeneral appends to the general parent (parent 0) a batch of its first on-group with a
+// batch time later than everything else (it has no partner and produces no output).
+func (c *BatchCase) appendClosingGeneral() {
+	last := make([]int64, len(c.Parents))
+	max := int64(0)
+	for p := range c.Parents {
+		for _, b := range c.Parents[p] {
+			last[p] += b.Gap
+		}
+		if last[p] > max {
+			max = last[p]
+		}
+	}
+	T := max + c.Tolerance + 1
+	d := c.Parents[0][0].D
+	c.Parents[0] = append(c.Parents[0], BB{D: d, Gap: T - last[0], Pts: []BP{{Off: 1, V: 3}}})
 }
 
 // events: on-group and rounded batch time of every batch (cases with on()).
@@ -666,6 +678,12 @@ func runBatch(c BatchCase, cc *kit.Case) {
 		}
 		if !gated {
 			cc.Label("gate-timeout")
+			if c.On && !c.Specific[0] && excluding("lowmark") {
+				// the arrival order was not controlled, so the excluded schedule class of the known
+				// finding (general parent late in an on-group) cannot be ruled out for this run
+				cc.Label("gate-timeout:run-not-compared")
+				continue
+			}
 		}
 		var got []string
 		lastT := int64(0)
@@ -725,7 +743,7 @@ func runBatch(c BatchCase, cc *kit.Case) {
 					cl = append(cl, "first-parent-late-in-group")
 				}
 				if len(cl) > 0 {
-					class = strings.Join(cl, "+")
+					class = cl[0] // both classes are known findings; the first names the case
 				}
 				sig = fmt.Sprintf("joinbatch/on/%s/multiset/%s/%s", class, jt, dir)
 			}
